@@ -20,8 +20,13 @@ Record octx := {
   o_cfg : N;                 (* app_config as seen on the object (null and absent both 0) *)
   o_cfgl : option N;         (* configuration entry of the app when this context was created (harness bookkeeping) *)
   o_imports : list cname; o_ismod : bool; o_rel : option path; o_born : N; o_started : bool; o_cnt : N }.
-Record ostep := { os_events : list event; os_ctxs : list octx }.
-Record rcase := { rc_steps : list rstep; rc_obs : list ostep }.
+Record ostep := {
+  os_events : list event; os_ctxs : list octx;
+  os_srv : list N;      (* source generations whose @service is registered with Home Assistant after the step (sorted) *)
+  os_pong : list N      (* source generations whose trigger function answered the ping after the step (sorted) *) }.
+Record rcase := { rc_legacy : bool; rc_steps : list rstep; rc_obs : list ostep }.
+
+Definition sort_N (l : list N) : list N := sort_by (fun g : N => [g]) l.
 
 Definition o_get (l : list octx) (n : cname) : option octx := find (fun c => nl_eqb (o_name c) n) l.
 
@@ -210,10 +215,9 @@ Fixpoint nodup_names (l : list cname) : bool :=
   | x :: r => negb (nl_mem x r) && nodup_names r
   end.
 
-Definition sp_step (now : N) (before : list octx) (s : rstep) (o : ostep) : list N :=
+Definition sp_step (now : N) (a : rarg) (before : list octx) (s : rstep) (o : ostep) : list N :=
   let t := rs_tree s in
   let k := rs_cfg s in
-  let a := rs_arg s in
   let after := os_ctxs o in
   let ss := sp_plan before t k a in
   let dis := ss_discard ss in
@@ -240,16 +244,20 @@ Definition sp_step (now : N) (before : list octx) (s : rstep) (o : ostep) : list
                then Nat.eqb (length (filter (fun e => nl_eqb (fst e) (o_name c')) (os_events o))) 1
                     && existsb (fun e => nl_eqb (fst e) (o_name c') && (snd e =? o_gen c')%N) (os_events o) && (o_cnt c' =? 1)%N
                else true) after)
-  ++ flag 8 (forallb (fun c' => if (o_born c' =? now)%N then sp_imports_ok t after c' else true) after).
+  ++ flag 8 (forallb (fun c' => if (o_born c' =? now)%N then sp_imports_ok t after c' else true) after)
+  (* what is registered / armed belongs to the contexts that exist: nothing of a failed or discarded file is left *)
+  ++ flag 9 (list_eqb N.eqb (os_srv o) (sort_N (map o_gen after)) && list_eqb N.eqb (os_pong o) (sort_N (map o_gen after))).
 
-Fixpoint sp_steps (now : N) (before : list octx) (steps : list rstep) (obs : list ostep) : list (N * list N) :=
+(* a change of the global options since the previous reload makes the reload a '*' reload (documented);
+   [old] = the options seen by the previous reload, None before the first one *)
+Fixpoint sp_steps (now : N) (old : option N) (before : list octx) (steps : list rstep) (obs : list ostep) : list (N * list N) :=
   match steps, obs with
   | s :: steps', o :: obs' =>
-      let bad := sp_step now before s o in
-      (match bad with [] => [] | _ => [(now, bad)] end) ++ sp_steps (now + 1)%N (os_ctxs o) steps' obs'
+      let bad := sp_step now (eff_arg old s) before s o in
+      (match bad with [] => [] | _ => [(now, bad)] end) ++ sp_steps (now + 1)%N (next_old now s) (os_ctxs o) steps' obs'
   | [], [] => []
   | _, _ => [(now, [99%N])]
   end.
 
-Definition spec_failures (c : rcase) : list (N * list N) := sp_steps 0%N [] (rc_steps c) (rc_obs c).
+Definition spec_failures (c : rcase) : list (N * list N) := sp_steps 0%N None [] (rc_steps c) (rc_obs c).
 Definition rcase_spec_ok (c : rcase) : bool := match spec_failures c with [] => true | _ => false end.
